@@ -396,7 +396,7 @@ _RQ9 = [('s%d_%s' % (i, K.STRATEGY_NAMES[i] or 'none'), 'strat == %d' % i) for i
 _RS9 = [('s%d_%s_m%d' % (i, n or 'none', m), 'strat == %d and mi == %d' % (i, m)) for i, n in enumerate(K.STRATEGY_NAMES) for m in range(3)]
 HARNESSES.append(
   H('C09_cache_race', quick=dict(timeout=280, shards=_RQ9, extra_pre=['p2 == 0', 'maxsize == 1', 'mi == 2 and ti == 0', 'b0 and not b2']),
-    thorough=dict(timeout=1500, shards=_RS9),
+    thorough=dict(timeout=900, shards=_RS9, extra_pre=['p2 in (0, 4)', 'maxsize <= 2', 'ti != 1']),
     covers=['interleaved'], replay='replay_cache_race', twin_pre=['strat == 0'],
     encodes=['carbon.cache:_MetricCache.store (cacheFull under the lock)', 'carbon.cache:_MetricCache.pop', 'carbon.cache:_MetricCache._check_available_space',
              'carbon.events cacheFull/cacheSpaceAvailable -> pause/resume chain'],
